@@ -21,7 +21,10 @@ RULE = (
     "kind {real file, read-only wrapper exposing only read, write-only wrapper exposing only write/flush/seekable()->False}. "
     "Oracle: records bit-equal to the reference normalisation in order; writer_schema has the reference canonical form; "
     ".codec/.metadata as supplied; wrapper streams report any other method touched. distinct_nontrivial = distinct "
-    "(schema, records, codec, interval, axis) configurations; files with >=1 record are non-trivial."
+    "(schema, records, codec, interval, axis) configurations; files with >=1 record are non-trivial. Scenario units add: a "
+    "top-level union given as raw, parsed as a whole, and as separately parsed records sharing a name table with cross "
+    "references; two/three readers open at once (headers parsed first, records pulled alternately) over files that define "
+    "the same type names differently."
 )
 ASSUMPTIONS = [
     "expected values from mc/ref/conform.normalise; canonical form from mc/ref/canon (Apache vectors)",
@@ -76,7 +79,80 @@ def units(tier):
     import fastavro.write as w
 
     codecs, _ = cont.available_codecs(w)
-    return [(si, c) for si in range(len(cont.top_schemas())) for c in codecs]
+    return [(si, c) for si in range(len(cont.top_schemas())) for c in codecs] + [("scenarios", c) for c in codecs]
+
+
+POINT = {"type": "record", "name": "Point", "namespace": "geo", "fields": [{"name": "x", "type": "int"}, {"name": "y", "type": "int", "default": 0}]}
+SEGMENT = {"type": "record", "name": "Segment", "namespace": "geo", "fields": [{"name": "a", "type": "Point"}, {"name": "b", "type": "geo.Point"},
+                                                                                {"name": "via", "type": {"type": "array", "items": "Point"}, "default": []}]}
+TWIN_A = {"type": "record", "name": "Order", "namespace": "tw", "fields": [
+    {"name": "item", "type": {"type": "record", "name": "Item", "fields": [{"name": "qty", "type": "int"}, {"name": "code", "type": "string"}]}},
+    {"name": "more", "type": {"type": "array", "items": "Item"}}, {"name": "next", "type": ["null", "Order"], "default": None}]}
+TWIN_B = {"type": "record", "name": "Order", "namespace": "tw", "fields": [
+    {"name": "item", "type": {"type": "record", "name": "Item", "fields": [{"name": "code", "type": "string"}, {"name": "qty", "type": "int"}]}},
+    {"name": "more", "type": {"type": "array", "items": "Item"}}, {"name": "next", "type": ["null", "Order"], "default": None}]}
+
+
+def run_scenarios(fa, res, codec, tier):
+    """Sequences rather than single files: a top-level union of separately parsed records that refer
+    to each other; several readers alive at once over files that define the same names differently."""
+    keys = set()
+    marker = cont.sync_marker()
+    # (1) union of parsed records with a cross reference, read from the bytes alone
+    raw_union = [copy.deepcopy(POINT), copy.deepcopy(SEGMENT)]
+    node, defs = names.resolve(raw_union)
+    recs = [{"x": 1, "y": 2}, {"a": {"x": 1}, "b": {"x": -1, "y": 5}, "via": [{"x": 64}]}, {"x": 0}]
+    exp = cont.expected(node, defs, recs)
+    exp_canon = canon.canonical((node, defs))
+    for form in ("raw", "parsed-shared-table", "parsed-whole"):
+        for iv in (1, 16000):
+            if form == "raw":
+                sa = copy.deepcopy(raw_union)
+            elif form == "parsed-whole":
+                sa = fa.parse_schema(copy.deepcopy(raw_union))
+            else:
+                table = {}
+                sa = [fa.parse_schema(copy.deepcopy(POINT), table), fa.parse_schema(copy.deepcopy(SEGMENT), table)]
+            info = {"schema": raw_union, "records": recs, "codec": codec, "sync_interval": iv, "axis": "scenario:union-" + form}
+            note_case(info)
+            keys.add(("union", form, iv))
+            res.evals += 1
+            fo = io.BytesIO()
+            try:
+                fa.writer(fo, sa, copy.deepcopy(recs), codec=codec, sync_interval=iv, sync_marker=marker)
+            except Exception as e:
+                res.add(Violation("c04.write", f"write-raised:{type(e).__name__}:scenario", f"writer raised {type(e).__name__}: {e} | {short(info, 400)}", info))
+                continue
+            check_read(res, fa, "read", info, io.BytesIO(fo.getvalue()), exp, exp_canon, codec, {})
+    # (2) readers alive at the same time
+    files = {}
+    datum = {"item": {"qty": 3, "code": "abc"}, "more": [{"qty": 70, "code": "xyz"}], "next": {"item": {"qty": 1, "code": "n"}, "more": [], "next": None}}
+    expd = {}
+    for nm, sch in (("A", TWIN_A), ("B", TWIN_B)):
+        fo = io.BytesIO()
+        fa.writer(fo, copy.deepcopy(sch), [copy.deepcopy(datum), copy.deepcopy(datum)], codec=codec, sync_interval=1, sync_marker=marker)
+        files[nm] = fo.getvalue()
+        n2, d2 = names.resolve(sch)
+        expd[nm] = cont.expected(n2, d2, [datum, datum])
+    for order in (("A", "B"), ("B", "A"), ("A", "B", "A")):
+        info = {"schema": TWIN_A, "records": [datum], "codec": codec, "sync_interval": 1, "axis": "scenario:readers-alive-" + "".join(order)}
+        note_case(info)
+        keys.add(("alive", order))
+        res.evals += 1
+        try:
+            readers = [fa.reader(io.BytesIO(files[nm])) for nm in order]   # all headers parsed first
+            got = [[] for _ in order]
+            for step in range(2):                                          # then records pulled alternately
+                for i, r in enumerate(readers):
+                    got[i].append(next(r))
+            for i, nm in enumerate(order):
+                if not all(same(a, b) for a, b in zip(got[i], expd[nm])):
+                    res.add(Violation("c04.read", "records-differ:readers-alive", f"with readers {order} open at once, reader {i} ({nm}) returned {short(got[i], 300)}, written {short(expd[nm], 300)}", info))
+        except Exception as e:
+            res.add(Violation("c04.read", f"read-raised:{type(e).__name__}:readers-alive", f"with readers {order} open at once: {type(e).__name__}: {e}", info))
+    res.distinct = len(keys)
+    res.sample({"scenarios": sorted(map(str, keys))[:4], "codec": codec})
+    return res
 
 
 def intervals(node, defs, recs, tier):
@@ -169,6 +245,8 @@ def run_unit(unit, tier):
 
     si, codec = unit
     res = UnitResult()
+    if si == "scenarios":
+        return run_scenarios(fa, res, codec, tier)
     name, raw = cont.top_schemas()[si]
     lists, node, defs = cont.record_lists(raw)
     exp_canon = canon.canonical((node, defs))
@@ -221,6 +299,8 @@ def replay(case):
     import fastavro as fa
 
     res = UnitResult()
+    if str(case.get("axis", "")).startswith("scenario:"):
+        return run_scenarios(fa, res, case["codec"], "quick").violations
     raw = case["schema"]
     node, defs = names.resolve(raw)
     recs = case["records"]
